@@ -41,3 +41,10 @@ Example climb_example :
             (SNode Add SLeaf (SNode Mul SLeaf (SNode DOT SLeaf SLeaf)))
             (SNode Sub (SNode AND SLeaf SLeaf) SLeaf)).
 Proof. vm_compute. reflexivity. Qed.
+
+(* the parser model as a whole (parse/Parse.v, compared with the real parser on every laid-out text by props/c05.py) hands its
+   operator chains to this climber: every binary tree it builds is the tree the table prescribes *)
+From Ucg Require Import parse.Parse parse.Parse_Toks parse.Parse_Lemmas.
+Theorem parser_trees_respect_the_table : forall fuel ts e r,
+    p_expr fuel ts = Ok e r -> WF code_prec (tree_of e).
+Proof. exact parse_produces_wf. Qed.
